@@ -120,6 +120,20 @@ def run(ctx, R, tier):
         if not sinks:
             R.ok('B.C15.range', 'relative_distance', detail='no clamp(min,max) / division by (max-min) on raw bounds')
 
+    # ---- finite output: no normalisation of a vector that can be zero
+    nn = 0
+    for b in F.bodies:
+        if b.krate != 'kira' or not b.path.startswith(('track::sub', 'listener', 'info::')):
+            continue
+        for bb, t in b.calls():
+            cp = callee_path(t) or ''
+            if cp.startswith('glam::') and cp.split('::')[-1] in ('normalize', 'normalize_or_zero', 'try_normalize', 'normalize_or'):
+                nn += 1
+                R.check(cp.split('::')[-1] != 'normalize', 'B.C15.finite', '%s|%s#%d' % (b.path, cp.split('::')[-1], nn),
+                        '%s normalises %s with glam\'s normalize(), which yields NaN for a zero vector (emitter exactly on an ear or on the '
+                        'listener); the zero-safe normalize_or_zero() is required for "finite for every finite position"'
+                        % (b.path, describe(b, t['args'][0], depth=3, at=bb)[:80]), detail={'call': cp}, where=b.where(bb))
+    R.floor('B.C15.finite', nn, 2)
     # ---- inheritance
     sub = calls_to(tb, TRACK + '::process', suffix=False)
     info = calls_to(tb, "info::Info::<'a>::new", suffix=False)
